@@ -3,7 +3,8 @@
      schema/field.go      ParseField: permission tags "-", "->", "<-" applied in this order
      statement.go         Statement.SelectAndOmitColumns (processColumn: "*", field / column spelling,
                           "tbl.col", "tbl.*", unknown names; the permission pass; restricted)
-     callbacks/update.go  ConvertToAssignments (struct payload, map payload, Save, SkipHooks)
+     callbacks/update.go  ConvertToAssignments (struct payload, map payload incl. the `assigned` set of
+                          commit cef6815, Save, SkipHooks)
      callbacks/create.go  ConvertToCreateValues (struct / slice; FieldsWithDefaultDBValue = the key;
                           OnConflict.UpdateAll expansion), callbacks/helper.go ConvertMapToValuesForCreate
      finisher_api.go      Update, Updates, UpdateColumn(s), Save (update, else upsert when no Select)
@@ -154,13 +155,40 @@ Definition assign_struct (s : schema) (sm : sel_map * bool) (skip_hooks is_save 
 
 (* map payload *)
 Definition map_has (p : payload) (n : string) : bool := existsb (fun e => String.eqb (fst e) n) (snd p).
-Definition assign_map (s : schema) (sm : sel_map * bool) (skip_hooks : bool) (p : payload)
-  : list assignment :=
+(* the assignments the key loop produces, in sorted key order *)
+Definition map_keys_part (s : schema) (sm : sel_map * bool) (p : payload) : list assignment :=
   flat_map (fun e =>
     match lookup_field s (fst e) with
     | Some f => if has_col f then (if allowed sm (f_db f) then [(f_db f, KPay)] else []) else []
     | None => if allowed sm (fst e) then [(fst e, KPay)] else []
-    end) (snd p)
+    end) (snd p).
+Definition was_assigned (set : list assignment) (c : string) : bool :=
+  existsb (fun a => String.eqb (fst a) c) set.
+
+(* the refresh loop: every tracked update-time column that got no assignment from the key loop
+   (`assigned[field.DBName]`, /repo commit cef6815) and is not denied / omitted *)
+Definition assign_map (s : schema) (sm : sel_map * bool) (skip_hooks : bool) (p : payload)
+  : list assignment :=
+  let keys := map_keys_part s sm p in
+  keys
+  ++ (if skip_hooks then [] else
+      flat_map (fun f =>
+        match f_auto f with
+        | AUpdate =>
+            if negb (was_assigned keys (f_db f))
+            then match sel_get (fst sm) (f_db f) with
+                 | Some false => []
+                 | _ => [(f_db f, KNow)]
+                 end
+            else []
+        | _ => []
+        end) (col_fields s)).
+
+(* the refresh loop BEFORE commit cef6815 (kept only as a record: Props_C10.c10_autoupdate_map_old_refuted):
+   it tested whether the map HAS the key, not whether the key was assigned *)
+Definition assign_map_old (s : schema) (sm : sel_map * bool) (skip_hooks : bool) (p : payload)
+  : list assignment :=
+  map_keys_part s sm p
   ++ (if skip_hooks then [] else
       flat_map (fun f =>
         match f_auto f with
